@@ -25,7 +25,7 @@ mod gv {
     // ---- contract: FramingOffsetSize::for_bare_container (Kani twin of the Verus unit: bit-precise usize) ----------
     // requires len + 8*n <= usize::MAX (otherwise the container is not addressable: the code panics by design)
     // ensures  width = spec_width(len, n)
-    // @unit C05.for_bare_container props=C05 kind=complete features=gvariant fn=zvariant::framing_offset_size::FramingOffsetSize::for_bare_container timeout=600
+    // @unit C05.for_bare_container props=C05 kind=complete features=gvariant fn=zvariant::framing_offset_size::FramingOffsetSize::for_bare_container timeout=1200
 #[cfg(not(verif_skip_c05_for_bare_container__complete))]
     #[cfg(kani)]
     #[kani::proof]
@@ -44,7 +44,7 @@ mod gv {
     // ---- contract: FramingOffsetSize::write_offset -------------------------------------------------------------------
     // requires offset representable in the width (callers pass offsets <= container size, which fits by for_bare_container)
     // ensures  exactly `width` bytes written at the writer position, little-endian value of the offset; nothing else
-    // @unit C05.write_offset props=C05 kind=complete features=gvariant fn=zvariant::framing_offset_size::FramingOffsetSize::write_offset timeout=600
+    // @unit C05.write_offset props=C05 kind=complete features=gvariant fn=zvariant::framing_offset_size::FramingOffsetSize::write_offset timeout=1200
 #[cfg(not(verif_skip_c05_write_offset__complete))]
     #[cfg(kani)]
     #[kani::proof]
@@ -84,7 +84,7 @@ mod gv {
     // ---- contract: FramingOffsetSize::read_last_offset_from_buffer ---------------------------------------------------
     // requires buffer empty or at least `width` bytes long (what from_encoded_array / the decoders pass)
     // ensures  0 for the empty buffer, otherwise the little-endian value of the LAST `width` bytes
-    // @unit C05.read_last_offset props=C05 kind=bounded bound=buffer<=12 features=gvariant fn=zvariant::framing_offset_size::FramingOffsetSize::read_last_offset_from_buffer timeout=600
+    // @unit C05.read_last_offset props=C05 kind=bounded bound=buffer<=12 features=gvariant fn=zvariant::framing_offset_size::FramingOffsetSize::read_last_offset_from_buffer timeout=1200
 #[cfg(not(verif_skip_c05_read_last_offset__n12))]
     #[cfg(kani)]
     #[kani::proof]
@@ -114,7 +114,7 @@ mod gv {
     // requires n <= 3 offsets (bounded), each <= container_len, container addressable
     // ensures  nothing written when there are no offsets; otherwise the offsets in insertion order, each in
     //          spec_width(container_len, n) bytes, little-endian
-    // @unit C05.write_all props=C05 kind=bounded bound=offsets<=3 features=gvariant fn=zvariant::framing_offsets::FramingOffsets::write_all,zvariant::framing_offsets::FramingOffsets::push timeout=900
+    // @unit C05.write_all props=C05 kind=bounded bound=offsets<=3 features=gvariant fn=zvariant::framing_offsets::FramingOffsets::write_all,zvariant::framing_offsets::FramingOffsets::push timeout=1800
 #[cfg(not(verif_skip_c05_write_all__n3))]
     #[cfg(kani)]
     #[kani::proof]
@@ -160,7 +160,7 @@ mod gv {
     //          Ok((offsets, offsets_len)) ==> offsets_len <= container length, offsets_len is a multiple of the offset
     //          width chosen for the container length, and every offset handed out is <= the start of the offset table
     //          (so a later slice `container[..offset]` stays inside the element area)
-    // @unit C05.from_encoded_array props=C05,C04 kind=bounded bound=container<=6 features=gvariant fn=zvariant::framing_offsets::FramingOffsets::from_encoded_array timeout=900
+    // @unit C05.from_encoded_array props=C05,C04 kind=bounded bound=container<=6 features=gvariant fn=zvariant::framing_offsets::FramingOffsets::from_encoded_array timeout=1800
 #[cfg(not(verif_skip_c05_from_encoded_array__n6))]
     #[cfg(kani)]
     #[kani::proof]
